@@ -9,14 +9,32 @@ from checks import spaces_common as sc
 PID = "C07"
 RULE = ("lattice: TLC enumerates (from, to, s, u) with s, u in eighths over integer-lattice states of R^n, SO(2), "
         "SO(3) (Hurwitz quaternions), time, discrete, torus, SE(2), SE(3), nested weighted compounds and wrappers, with "
-        "the exact admissible interpolants (either arc / either great circle on antipodal ties); recorded: seeded "
-        "adversarial pairs on all 29 shipped spaces, t in 64ths. A case is non-trivial when its class hits a case "
+        "the exact admissible interpolants (either arc / either great circle on antipodal ties), the empty space and "
+        "space-time lattices (reachable, on the light cone, unreachable); recorded: seeded adversarial pairs on all 38 "
+        "shipped spaces, t in 64ths - among them Owen / Vana / VanaOwen (low-, medium-, high-altitude paths, pairs "
+        "without a path), SpaceTime (pairs within and beyond the speed limit), EmptyStateSpace, projected / atlas / "
+        "tangent-bundle space over R^3 with the unit sphere (geodesics that succeed and that fail). A case is non-trivial when its class hits a case "
         "split: coincident, antipodal tie, seam-crossing, long-way quaternion, landing exactly on -pi, t in {0,1}, "
         "on a bound; distinct = distinct hash of (space, case).")
 ASSUMPTIONS = ["states in bounds",
                "re-parameterisation and proportionality only for R^n, SO(2), SO(3), SE(2), SE(3), time, torus and weighted "
                "compounds of them; never for discrete / hybrid spaces",
                "antipodal ties may go either way",
+               "Owen / Vana / VanaOwen (not in the property's list of geodesic spaces): endpoints, in-bounds, aliasing; what "
+               "holds by construction of 'interpolate follows the computed path': distance() = length of getPath(), "
+               "interpolate(from,to,t) = interpolate(from,to,t,path) on that path bit for bit, chords between consecutive "
+               "interpolants (every 1/16 of the path at least, 1e-3 units) <= K x the path length between them with K = 1 "
+               "(Owen: constant speed) resp. 23/16 >= sqrt 2 (Vana, VanaOwen: horizontal and vertical projection are each "
+               "traversed at fraction t of their own length), pitch within its range up to the planar Dubins resolution "
+               "2e-6, heading in [-pi, pi); a pair for which getPath() finds no path is tagged (interpolate returns from)",
+               "SpaceTime: pairs within the speed limit get all laws of a weighted compound of R^n / SE(2) and time; pairs "
+               "beyond it (infinite distance) endpoints, in-bounds and aliasing only",
+               "constrained spaces: interpolate(from,to,0) = from (tangent bundle: within 2 x the constraint tolerance, it "
+               "re-projects the state it picks); interpolate(from,to,1) within delta (the resolution of the discrete "
+               "geodesic, library default 0.05) of to when discreteGeodesic(from,to) succeeds, = from when it fails - asked "
+               "before and after the calls, and one of the two in any case; when it fails every t gives from; aliasing "
+               "exact for the projected space, within delta for the atlas-based ones (the atlas grows between calls); "
+               "in-bounds",
                "tolerance (logged per space): 2e-6 for the micro-unit rounding, + 4.5e-5 x weight for spaces containing "
                "SO(3) (its distance is 0 above |<p,q>| > 1 - 1e-9)"]
 
